@@ -1,8 +1,50 @@
 (* C03 — native EDS serialisation is lossless (token level). *)
-From Coq Require Import List NArith ZArith Bool.
+From Coq Require Import List NArith ZArith Bool Relations.
 From PyD Require Import Base.Str Base.Dec Model.Mrs Model.Iso Model.SimpleMrs Model.EdsNative Proofs.SimpleMrsP Proofs.EdsNativeP.
 Import ListNotations.
 
 Theorem C03_unescape_escape : forall s, unescape (escape s) = s.
 Proof. exact unescape_escape. Qed.
 Print Assumptions C03_unescape_escape.
+
+(* decoding the encoder's token stream returns identifier, top and every
+   node (id, predicate, alignment, constant, type, properties in priority
+   order, edges in role order), for ANY placement of the "(fragmented)" and
+   "|" status markers, with or without a top (the lookahead-based top
+   detection never errs on encoder output), whatever follows; suppressing
+   properties removes them together with the type, suppressing alignments
+   removes exactly those *)
+Theorem C03_decode_of_encode : forall frag disc p l g rest, Forall vnode_wf (ve_nodes g) ->
+  dec_eds (enc_gen frag disc p l g ++ rest) = Some (proj_veds p l g, rest).
+Proof. exact dec_enc_gen. Qed.
+Print Assumptions C03_decode_of_encode.
+
+(* the real encoder (status markers from the connectivity computation, shown or hidden) is an instance *)
+Theorem C03_decode_of_encode_status : forall p l st g toks rest, Forall vnode_wf (ve_nodes g) ->
+  enc_veds p l st g = Some toks -> dec_eds (toks ++ rest) = Some (proj_veds p l g, rest).
+Proof. exact dec_enc_veds. Qed.
+Print Assumptions C03_decode_of_encode_status.
+
+(* top detection in isolation: top present or absent, fragmented or not, first node marked or not *)
+Theorem C03_top_detection : forall (frag : bool) disc p l (top : option str) n nodes (rest : list etok),
+  dec_top (match top with Some t => [ESYM t; ECOLON] | None => [] end
+           ++ (if frag then [EGSTATUS FRAGMENTED] else [])
+           ++ flat_map (node_toks disc p l) (n :: nodes) ++ ERBRACE :: rest)
+  = Some (top, flat_map (node_toks disc p l) (n :: nodes) ++ ERBRACE :: rest).
+Proof. exact dec_top_enc. Qed.
+Print Assumptions C03_top_detection.
+
+(* the component behind the status markers is the reflexive-transitive closure of the undirected edges *)
+Theorem C03_main_component : forall g start x,
+  (match ve_top g with Some t => Some t | None => hd_error (node_ids g) end) = Some start ->
+  (In x (main_comp g) <-> clos_refl_trans _ (fun a b => In (a, b) (und_edges (ve_nodes g))) start x).
+Proof. exact main_comp_spec. Qed.
+Print Assumptions C03_main_component.
+
+(* non-vacuity: a fragmented graph with a quoted constant, an untyped node and a disconnected node *)
+Theorem C03_hypotheses_satisfiable :
+  Forall vnode_wf (ve_nodes ex_e) /\
+  exists toks, enc_veds true true true ex_e = Some toks /\ length toks = 53%nat
+               /\ In (EGSTATUS FRAGMENTED) toks /\ In ENSTATUS toks.
+Proof. exact (conj ex_e_wf ex_e_markers). Qed.
+Print Assumptions C03_hypotheses_satisfiable.
